@@ -163,7 +163,12 @@ def _kde(job):
     try:
         np.random.seed(seed)
         m = GaussianKDE(**kw)
-        m.fit(X.copy())
+        Xc = X.copy()
+        m.fit(Xc)
+        if seed % 2:
+            # the caller reuses its array after the fit (next batch in the same buffer): the estimate stays that of the training data
+            Xc -= 2.5 * scale
+            Xc[::2] *= -1.0
     finally:
         np.random.set_state(st)
     data = np.asarray(m.to_dict()['dataset'], dtype=float).ravel()
